@@ -1056,6 +1056,9 @@ pub enum NonceCase {
     /// every VALUE 0..=255 of one byte of the 64-bit counter (the other bytes small): a nonce computation that goes wrong
     /// for particular byte values (e.g. those that happen to equal a byte of the secret base nonce) shows here
     ByteValues { suite: SuiteId, byte: u8 },
+    /// more than 4 GiB of plaintext through ONE sender / receiver pair (17 messages of 256 MiB, in place): sealing keeps
+    /// working whatever the total volume - the only limit is the sequence number
+    Bulk { suite: SuiteId },
 }
 
 pub struct NonceFormula {
@@ -1083,6 +1086,14 @@ impl Part for NonceFormula {
             v.push(NonceCase::Distinct { suite });
             for byte in 0..8u8 {
                 v.push(NonceCase::ByteValues { suite, byte });
+            }
+        }
+        {
+            let mut seen = std::collections::HashSet::new();
+            for &suite in &self.suites {
+                if seen.insert(suite.aead) {
+                    v.push(NonceCase::Bulk { suite });
+                }
             }
         }
         // the long run only for one (KEM,KDF) pair per AEAD: the sequence logic is generic in them
@@ -1124,6 +1135,55 @@ impl Part for NonceFormula {
                     run_seal(&mut out, &fx, s.as_mut(), pos, api, &format!("start {:#x} seal #{}", start, i));
                     pos = pos.and_then(succ);
                 }
+            }
+            NonceCase::Bulk { suite } => {
+                out.outcome = format!("bulk/{}", suite.aead.name());
+                let fx = match Fixture::new(*suite, Mode::Base, cfg.seed) {
+                    Ok(f) => f,
+                    Err(e) => {
+                        out.fail(e);
+                        return out;
+                    }
+                };
+                let (mut s, mut r) = match (fx.sender(), fx.receiver()) {
+                    (Ok(s), Ok(r)) => (s, r),
+                    (Err(e), _) | (_, Err(e)) => {
+                        out.fail(e);
+                        return out;
+                    }
+                };
+                const CHUNK: usize = 256 << 20;
+                let mut buf = vec![0u8; CHUNK];
+                for i in 0..17u64 {
+                    let fillb = 0x11u8.wrapping_mul(i as u8 + 1);
+                    buf.iter_mut().for_each(|b| *b = fillb);
+                    out.transitions += 2;
+                    let tag = match s.seal_ip(&mut buf, b"bulk") {
+                        Obs::Ok(t) => t,
+                        o => {
+                            out.fail(format!("message #{} of 256 MiB ({} GiB sealed so far by this context): {} - sealing must keep working until the sequence numbers run out", i, (i * CHUNK as u64) >> 30, o.class()));
+                            return out;
+                        }
+                    };
+                    if buf[0] == fillb && buf[1] == fillb && buf[CHUNK - 1] == fillb {
+                        out.fail(format!("message #{}: the buffer does not look encrypted", i));
+                    }
+                    match r.open_ip(&mut buf, b"bulk", &tag) {
+                        Obs::Ok(()) => {
+                            if buf.iter().any(|b| *b != fillb) {
+                                out.fail(format!("message #{} of 256 MiB does not decrypt to what was sealed", i));
+                                return out;
+                            }
+                        }
+                        o => {
+                            out.fail(format!("message #{} of 256 MiB ({} GiB opened so far): {}", i, (i * CHUNK as u64) >> 30, o.class()));
+                            return out;
+                        }
+                    }
+                }
+                // and it still seals small messages exactly as R1 says
+                run_seal(&mut out, &fx, s.as_mut(), Some(17), Api::Alloc, "the 18th message, after 4.25 GiB");
+                out.nontrivial = true;
             }
             NonceCase::ByteValues { suite, byte } => {
                 out.outcome = format!("byte-values/{}", suite.aead.name());
